@@ -35,7 +35,7 @@ Open Scope Z_scope.
 Theorem model_is_of_current_source :
   code_cfg = {| c_build_archives := true; c_reissue_archives := true; c_rejects_archived := true; c_set_once := true;
                 c_queries_stored := true; c_confirm_recomputes := true;
-                c_genesis_archives_live := true; c_redeploy_reissues := true |} /\
+                c_genesis_archives_live := true; c_redeploy_reissues := true; c_stale_publishes := false |} /\
   Gen.C13.batch_queries = ["BatchRequestByNonce"; "LastPendingBatchForGasEstimation"; "LastPendingBatchRequestByAddr";
                            "OutgoingTxBatches"]%string /\
   Gen.C13.add_evidence_one_entry_per_validator = true /\
@@ -226,13 +226,16 @@ Print Assumptions confirm_checks_the_published_checkpoint_while_id_unchanged.
 
 (** ... and, since skyway re-issues every open batch of a chain when a compass is activated for it
     (refreshOpenBatchCheckpoints: recomputed for the new id, stored AND archived; shape checked by T),
-    for ALL histories without a stale activation: what ConfirmBatch verifies against IS what the
+    and since a stale activation is no longer announced to skyway (fix a10a974d, shape read by T),
+    for ALL histories -- stale activations included: what ConfirmBatch verifies against IS what the
     queries serve -- issued = verified, also across redeploys, restarts, re-estimates. *)
 Theorem confirm_checks_what_the_queries_serve :
   forall (Sig : Type) (cp : Z -> Z -> Z -> Z) (recover : Z -> Sig -> option addr) (ops : list (op Sig)) (key : Z),
-  Forall (@not_stale Sig) ops ->
   confirm_checks_against cp code_cfg (run cp recover code_cfg ops) key = served_bts cp code_cfg (run cp recover code_cfg ops) key.
-Proof. exact (fun Sig cp recover => confirm_checks_what_is_served cp recover code_cfg eq_refl). Qed.
+Proof.
+  exact (fun Sig cp recover ops key =>
+    confirm_checks_what_is_served cp recover code_cfg eq_refl ops key (stale_ok_all code_cfg eq_refl ops)).
+Qed.
 Print Assumptions confirm_checks_what_the_queries_serve.
 
 (** Why the re-issue is needed for that (a tree without it, main before a05a08cf): for a batch that
@@ -249,17 +252,25 @@ Theorem confirm_after_redeploy_verifies_an_unpublished_checkpoint :
 Proof. exact confirm_after_redeploy_checks_unpublished. Qed.
 Print Assumptions confirm_after_redeploy_verifies_an_unpublished_checkpoint.
 
-(** Observation on the code as it is: ActivateChainReferenceID called with a contract version not
-    above the active one changes nothing in the chain info but still publishes the activation event;
-    skyway then re-issues the open batches for the id the EVENT carries.  Everything it publishes is
-    archived (no clause of C13 is touched), but issued <> verified again for those batches. *)
+(** A stale activation (ActivateChainReferenceID with a contract version not above the active one).
+    The code as it is does not announce it: for skyway it is a step in which NOTHING happens -- the
+    issued and archived sets, the batches, everything stays as it was ... *)
+Theorem stale_activation_changes_nothing :
+  forall (Sig : Type) (cp : Z -> Z -> Z -> Z) (recover : Z -> Sig -> option addr) (s : state) (chain tid : Z),
+  step cp recover code_cfg s (OStaleActivate chain tid) = s.
+Proof. exact (fun Sig cp recover s chain tid => stale_activation_is_a_noop cp recover code_cfg s chain tid eq_refl). Qed.
+Print Assumptions stale_activation_changes_nothing.
+
+(** ... whereas on a tree where evm still published the activation event for it (main before
+    a10a974d; defect found by C06) skyway re-issued the open batches for the id the EVENT carried:
+    everything published was archived (no clause of C13 touched), but issued <> verified again. *)
 Theorem stale_activation_reissues_for_an_id_not_in_force :
-  let s := run ex_cp ex_recover code_cfg
+  let s := run ex_cp ex_recover stale_publishing_cfg
              [OSetTid 1 7; OSetReg [(1, 5, 210); (1, 6, 212)]; OBuild 1 1 42; OStaleActivate 1 9] in
-  served_bts ex_cp code_cfg s 1 = Some (ex_cp 9 42 300000) /\
-  confirm_checks_against ex_cp code_cfg s 1 = Some (ex_cp 7 42 300000) /\
+  served_bts ex_cp stale_publishing_cfg s 1 = Some (ex_cp 9 42 300000) /\
+  confirm_checks_against ex_cp stale_publishing_cfg s 1 = Some (ex_cp 7 42 300000) /\
   In (ex_cp 9 42 300000) (st_archive s) /\ In (ex_cp 7 42 300000) (st_archive s).
-Proof. exact stale_activation_desyncs_now. Qed.
+Proof. exact stale_activation_desyncs_when_announced. Qed.
 Print Assumptions stale_activation_reissues_for_an_id_not_in_force.
 
 (** Chain restart from an exported genesis.  [genesis_safe] holds for EVERY history once InitGenesis
